@@ -254,6 +254,8 @@ def spec_configs(tier: str) -> List[Any]:
             elif c.pack in ("base", "norm+sym", "inf2", "rfac", "rfswap", "norm+atomlast", "oneway+inf1") and c.db in ("RuleDB", "Forest"):
                 keep.append(c)
         cfgs = keep
+    else:
+        cfgs = [c for c in cfgs if c.db in ("RuleDB", "Forest")]
     return cfgs
 
 
